@@ -339,3 +339,5 @@ keep("V22", ALL, [("simulate.py", "    additional_targets=None,\n    seed=12345,
      why="new optional parameter added to simulate")
 keep("V23", ALL, [("solve_brute.py", "    n_periods = len(state_choice_spaces)\n", "    n_periods: int = len(state_choice_spaces)\n    assert n_periods >= 1\n", 1)],
      why="annotation and an assertion added")
+brk("W01", ["C02", "C13"], "simulate.py", '                "value": value,\n', '                "value": value.astype(jnp.float32).round(3),\n', "reported value rounded")
+brk("W02", ["C08", "C02"], "simulate.py", "            _combination_grid[name] = jnp.tile(choice, reps=n_states)", "            _combination_grid[name] = jnp.tile(choice.astype(int), reps=n_states)", "sparse choice grid cast")
